@@ -37,10 +37,13 @@ WORDS = ("the of and a to in is for gene protein synthetic construct vector clon
 TRAPS = ["AUTHORS", "TITLE", "JOURNAL", "PUBMED", "REMARK", "ORGANISM", "LOCUS", "DEFINITION", "ACCESSION", "VERSION",
          "KEYWORDS", "SOURCE", "REFERENCE", "FEATURES", "ORIGIN", "COMMENT", "path//"]
 MONTHS = "JAN FEB MAR APR MAY JUN JUL AUG SEP OCT NOV DEC".split()
-FKEYS = ["source", "gene", "CDS", "misc_feature", "primer_bind", "promoter", "rep_origin", "5'UTR", "-10_signal", "tRNA", "D-loop", "x"]
+FKEYS = ["source", "gene", "CDS", "misc_feature", "primer_bind", "promoter", "rep_origin", "5'UTR", "-10_signal", "tRNA", "D-loop", "x",
+         "a/b", "x=y", "/odd", "k\"q", "#1", "15_characters__"]
 QKEYS = ["label", "note", "product", "gene", "locus_tag", "db_xref", "codon_start", "transl_table", "organism", "mol_type",
-         "function", "inference", "bound_moiety", "standard_name", "k", "EC_number", "q2", "PCR_primers", "Note", "pseudo", "X9"]
-EXTRA = ["COMMENT", "DBLINK", "PRIMARY", "CONTIG", "PROJECT", "BASE", "NID", "SEGMENT", "X", "ABCDEFGHIJ"]
+         "function", "inference", "bound_moiety", "standard_name", "k", "EC_number", "q2", "PCR_primers", "Note", "pseudo", "X9",
+         "a-b", "x.y", "k:1", "5'end", "(k)", "#", "~t"]
+EXTRA = ["COMMENT", "DBLINK", "PRIMARY", "CONTIG", "PROJECT", "BASE", "NID", "SEGMENT", "X", "ABCDEFGHIJ",
+         "Comment2", "a-b", "x/y", "DBSOURCE", "ELEVENCHARS", "Z=1", "q\"r"]
 PRINT_NOQ = "".join(chr(i) for i in range(32, 127) if chr(i) != '"')
 AMINO = "ACDEFGHIKLMNPQRSTVWY"
 
@@ -128,7 +131,7 @@ def location(r, n, depth=0):
                          "%d.%d" % (a, b), "%d^%d" % (a, a + 1), "J00194.1:%d..%d" % (a, b),
                          "join(J00194.1:%d..%d,%d..%d)" % (a, b, a, b), "order(complement(%d..%d),%d)" % (a, b, a),
                          "complement(order(%d..%d,%d..%d))" % (a, b, a, b), "oneof(%d,%d)" % (a, b), str(r.randint(0, 9)),
-                         "join(%d.%d,<%d..>%d)" % (a, b, a, b)])
+                         "join(%d.%d,<%d..>%d)" % (a, b, a, b), "-%d..%d" % (a, b), "join(%d..%d,/x,%d)" % (a, b, a), "a/b", "%d..%d;x" % (a, b)])
     if depth >= 2 or k < 0.5:
         return span()
     if k < 0.7:
@@ -166,6 +169,9 @@ def qual_value(r, trap):
         return r.choice(["1", "11", "other DNA", "taxon:562", "x=y=z", "a/b", "a=b/c d=e/f", " lead", "trail ", "=", "/"])
     if k < 0.145:
         return r.choice(["1", "11", "other DNA", "a/b", "x=y=z", "taxon:562", " lead", "trail ", "a // b", "/start", "=", "/", "see /note here", "a=b/c d=e/f"])
+    if k < 0.2:
+        # quotation marks inside (not at either end), also next to '/' and at chunk ends
+        return r.choice(['say "hi" there', 'a "b" /c d', 'x" /y', 'the "quoted" word and "another" /one more', 'k="v"/w', 'a""b', '5\' "x"/ y'])
     if k < 0.45:
         return randword(r, PRINT_NOQ, r.randint(1, 30))
     if k < 0.55:
